@@ -29,6 +29,7 @@ Definition is_fail (r : resp) : bool := (rs_cmd r =? SmppCommand_GENERIC_NACK) |
 Section Outcome.
   Variables (r log : Z) (k : nat) (sq uid : nat -> Z).
   Hypothesis Hk : (2 <= k)%nat.
+  Hypothesis Hk255 : (k <= 255)%nat.           (* sar_total_segments is a single octet *)
   Hypothesis sq_inj : forall i j, (i < k)%nat -> (j < k)%nat -> sq i = sq j -> i = j.
 
   Definition oseg (i : nat) : smsg :=
